@@ -29,6 +29,7 @@
  Rn arg roles     : a variable named like a parameter of the callee is handed to that parameter (no exchanged roles).
  R9 fibre lists   : split_fiber and add_inline_amplifier are applied to every fibre class (truth table), and only to fibres.
  Rz sentinel      : fields defaulted when None are None when absent from the input (loader .get without another default).
+ R10 defaults/kind: connector defaults of the same side; amplifier kind decided on the frozen side of the OMS per insertion function.
 """
 import ast
 
@@ -555,6 +556,52 @@ def rs_sentinel(ctx):
     ctx.need('Rz.sentinel', 2)
 
 
+def r10_defaults_and_kind(ctx):
+    """R10: (a) a missing connector loss is filled with the Span default OF THE SAME SIDE (con_in <- input default, con_out <- output
+    default); (b) the kind of amplifier inserted (single- or multi-band) is decided on the part of the OMS that the new
+    amplifier feeds / is fed by, as frozen per insertion function: booster and in-line amplifier look downstream from the next
+    node, the preamp looks upstream from the previous node"""
+    repo = ctx.repo
+    f = repo.func(NW, 'add_connector_loss')
+    n = 0
+    for g in [x for x in walk_no_nested(f.node) if isinstance(x, ast.If) and isinstance(x.test, ast.Compare) and isinstance(x.test.ops[0], ast.Is)
+              and isinstance(x.test.left, ast.Attribute)]:
+        fld = x_fld = g.test.left.attr
+        st = [s for s in g.body if isinstance(s, ast.Assign) and ast.unparse(s.targets[0]) == ast.unparse(g.test.left)]
+        if not st or not isinstance(st[0].value, ast.Name):
+            continue
+        n += 1
+        v = st[0].value.id
+        other = {'con_in': 'con_out', 'con_out': 'con_in'}.get(fld)
+        ok = fld in v and not (other and other in v)
+        ctx.check('R10.default-side', f'{site(f, g)} {fld}', ok and v in f.params, key(f, f'default|{fld}'),
+                  f'a missing {fld} is filled with {v}: not the configured default of that side')
+    want = {'add_roadm_booster': ('get_oms_edge_list', 'next'), 'add_inline_amplifier': ('get_oms_edge_list', 'next'),
+            'add_roadm_preamp': ('get_oms_edge_list_from_egress', 'prev')}
+    for fname, (helper, side) in want.items():
+        g = repo.func(NW, fname)
+        cs = calls_to(g, {'check_oms_single_type'})
+        ok = len(cs) == 1 and isinstance(cs[0].args[0], ast.Name)
+        if ok:
+            src = [s.value for s in walk_no_nested(g.node) if isinstance(s, ast.Assign) and ast.unparse(s.targets[0]) == cs[0].args[0].id]
+            ok = len(src) == 1 and isinstance(src[0], ast.Call) and getattr(src[0].func, 'id', '') == helper and isinstance(src[0].args[0], ast.Name)
+            if ok:
+                a0 = src[0].args[0].id
+                meth = 'successors' if side == 'next' else 'predecessors'
+                # the argument is the neighbour read from the graph on that side (loop variable over successors / predecessors, or next(...))
+                defs_ = [ast.unparse(s.value) for s in walk_no_nested(g.node) if isinstance(s, ast.Assign) and ast.unparse(s.targets[0]) == a0]
+                loops_ = [ast.unparse(l.iter) for l in walk_no_nested(g.node) if isinstance(l, ast.For) and ast.unparse(l.target) == a0]
+                listdefs = {ast.unparse(s.targets[0]): ast.unparse(s.value) for s in walk_no_nested(g.node) if isinstance(s, ast.Assign)}
+                txt = ' '.join(defs_ + loops_ + [listdefs.get(l_, '') for l_ in loops_])
+                ok = meth in txt or ('get_next_node' in txt and side == 'next') or ('get_previous_node' in txt and side == 'prev')
+        n += 1
+        ctx.check('R10.amplifier-kind', f'{site(g)} {helper}', ok, key(g, 'oms-side'),
+                  f'{fname} does not decide the kind of amplifier on {helper}(<the {side} node>): a single-band amplifier could be inserted '
+                  'into a multi-band OMS (or the reverse) and the design abort on a mixed OMS')
+    ctx.need('R10.default-side', 2)
+    ctx.need('R10.amplifier-kind', 3)
+
+
 from ..memo import rule_for as _memo_rule
 
 RULES_MEMO = ('Rm.memo', _memo_rule('C08', 'a structural decision taken for another element would be reused'))
@@ -565,4 +612,4 @@ from ..presence import rule_for as _presence_rule
 RULES_PRESENCE = ('Rp.presence', _presence_rule('C08', 'a legal zero would be read as missing'))
 
 RULES = [('R1.surgery', r1_surgery), ('R2.edge-weight', r2_weights), ('R3.completeness', r3_completeness), ('R4.split', r4_split),
-         ('R5.order', r5_order), ('R6.every-oms', r6_every_oms), RULES_MEMO, RULES_PRESENCE, ('R7.span-walk', r7_span_walk), ('Ru.units', ru_units), ('Rv.verbose-pure', rv_verbose), ('Re.for-each', re_foreach), ('Rn.arg-roles', rn_arg_roles), ('R9.fibre-lists', r9_fibre_lists), ('Rz.sentinel', rs_sentinel)]
+         ('R5.order', r5_order), ('R6.every-oms', r6_every_oms), RULES_MEMO, RULES_PRESENCE, ('R7.span-walk', r7_span_walk), ('Ru.units', ru_units), ('Rv.verbose-pure', rv_verbose), ('Re.for-each', re_foreach), ('Rn.arg-roles', rn_arg_roles), ('R9.fibre-lists', r9_fibre_lists), ('Rz.sentinel', rs_sentinel), ('R10.defaults-and-kind', r10_defaults_and_kind)]
